@@ -73,15 +73,16 @@ impl Run {
     }
 
     pub fn violation(&mut self, v: Violation) {
+        let k = v.extra.get("merged_occurrences").and_then(|x| x.as_u64()).unwrap_or(1) as usize;
         match self.violations.get_mut(&v.site) {
             Some((old, n)) => {
-                *n += 1;
+                *n += k;
                 if v.size < old.size {
                     *old = v;
                 }
             }
             None => {
-                self.violations.insert(v.site.clone(), (v, 1));
+                self.violations.insert(v.site.clone(), (v, k));
             }
         }
     }
